@@ -22,7 +22,8 @@ ID = "C11"
 LEVEL = "exploration"
 B0 = 150000      # steps; >= 25x what any small-input operation used on the repaired tree (evidence: envelope_* keys)
 B1 = 8000        # steps per input character (measured maximum 320)
-WALL_BACKSTOP_S = 120
+WALL_BACKSTOP_S = 60
+MAX_HANGS_PER_WORKER = 6
 RULE = ("(a) every string over a 24-token docstring alphabet up to length 3 (quick) / 4 (thorough) plus seeded longer "
         "ones, each fed to the docstring parser (two option sets), the three docstring round-trips and embedded in a "
         "function and a class for the source parsers; (b) seeded interface specs whose prose is drawn from a pool of "
@@ -326,8 +327,18 @@ def work(task):
     seen_sites = set()
     known = load_known(ID)
 
+    class _Enough(Exception):
+        pass
+
+    hangs = [0]
+
     def handle(op):
+        if hangs[0] >= MAX_HANGS_PER_WORKER:
+            raise _Enough()
         v = run_op(op, st)
+        if v is not None:
+            # a hang without line events costs the whole wall backstop: two of those are enough
+            hangs[0] += 3 if "no line events" in v["sig"]["site"] else 1
         if v is not None and v["sig"]["site"] not in seen_sites:
             seen_sites.add(v["sig"]["site"])
             small = minimise(op)
@@ -335,61 +346,65 @@ def work(task):
             v2["trace"]["seed"] = task["seed"]
             viols.append(v2)
 
-    part = task["part"]
-    if part == "enum":
-        # exhaustive token strings: this worker takes every `stride`-th string
-        toks, length = (TOKENS, task["length"]) if task["alphabet"] == "full" else (CORE, task["length"])
-        i = 0
-        for L in range(0, length + 1):
-            for combo in itertools.product(toks, repeat=L):
-                if i % task["stride"] == task["offset"]:
-                    text = "".join(combo)
-                    for op in (text_ops(text) if L <= 2 else itertools.islice(text_ops(text), 3 if L == 3 else 1)):
+    try:
+        part = task["part"]
+        if part == "enum":
+            # exhaustive token strings: this worker takes every `stride`-th string
+            toks, length = (TOKENS, task["length"]) if task["alphabet"] == "full" else (CORE, task["length"])
+            i = 0
+            for L in range(0, length + 1):
+                for combo in itertools.product(toks, repeat=L):
+                    if i % task["stride"] == task["offset"]:
+                        text = "".join(combo)
+                        for op in (text_ops(text) if L <= 2 else itertools.islice(text_ops(text), 3 if L == 3 else 1)):
+                            handle(op)
+                        st["runs"] += 1
+                    i += 1
+            st["exhaustive_strings"] = st["runs"]
+        else:
+            from checks import c07
+            from hypothesis import strategies as hst  # noqa: F401
+            for r in range(task["n"]):
+                st["runs"] += 1
+                which = r % 4
+                if which == 0:      # (a) seeded longer token strings
+                    text = "".join(rng.choice(TOKENS) for _ in range(rng.randint(4, 14)))
+                    for op in text_ops(text):
                         handle(op)
-                    st["runs"] += 1
-                i += 1
-        st["exhaustive_strings"] = st["runs"]
-    else:
-        from checks import c07
-        from hypothesis import strategies as hst  # noqa: F401
-        for r in range(task["n"]):
-            st["runs"] += 1
-            which = r % 4
-            if which == 0:      # (a) seeded longer token strings
-                text = "".join(rng.choice(TOKENS) for _ in range(rng.randint(4, 14)))
-                for op in text_ops(text):
-                    handle(op)
-                if len(samples) < 2:
-                    samples.append({"docstring_text": text})
-            elif which == 1:    # (b) prose through every emitter
-                for op in spec_ops(rng):
-                    handle(op)
-                    if len(samples) < 3 and op["emitter"] == "docstring":
-                        samples.append({"emit": op["emitter"], "spec": op["spec"], "opts": op["opts"]})
-            elif which == 2:    # (c) fault-derived: truncated well-formed inputs
-                text, spec, style = wellformed_docstring(rng)
-                for _ in range(4):
-                    cut = rng.randint(0, len(text))
-                    st["probes"]["truncated_inputs"] = st["probes"].get("truncated_inputs", 0) + 1
-                    for op in itertools.islice(text_ops(text[:cut]), 5):
+                    if len(samples) < 2:
+                        samples.append({"docstring_text": text})
+                elif which == 1:    # (b) prose through every emitter
+                    for op in spec_ops(rng):
                         handle(op)
-                src = gen.render_function(spec, style=style)
-                cut = rng.randint(0, len(src))
-                handle({"kind": "doctrans_history", "source": src[:cut], "cmds": [[rng.choice(STYLES), True, False]]})
-            elif which == 3 and r % 8 == 3:   # (e) whitespace / character mutations of well-formed docstrings
-                text, spec, style = wellformed_docstring(rng, rich=True)
-                for _ in range(6):
-                    t = mutate(rng, text)
-                    st["probes"]["mutated_inputs"] = st["probes"].get("mutated_inputs", 0) + 1
-                    for op in itertools.islice(text_ops(t), 6):
-                        handle(op)
-            else:               # (d) histories on the simulated disk
-                mod = _draw_module(rng)
-                cmds = [[rng.choice(STYLES), rng.choice((True, False)), rng.choice((True, False))]
-                        for _ in range(rng.randint(1, 3))]
-                handle({"kind": "doctrans_history", "source": mod, "cmds": cmds})
-                if len(samples) < 4:
-                    samples.append({"doctrans_history": cmds, "source": mod[:600]})
+                        if len(samples) < 3 and op["emitter"] == "docstring":
+                            samples.append({"emit": op["emitter"], "spec": op["spec"], "opts": op["opts"]})
+                elif which == 2:    # (c) fault-derived: truncated well-formed inputs
+                    text, spec, style = wellformed_docstring(rng)
+                    for _ in range(4):
+                        cut = rng.randint(0, len(text))
+                        st["probes"]["truncated_inputs"] = st["probes"].get("truncated_inputs", 0) + 1
+                        for op in itertools.islice(text_ops(text[:cut]), 5):
+                            handle(op)
+                    src = gen.render_function(spec, style=style)
+                    cut = rng.randint(0, len(src))
+                    handle({"kind": "doctrans_history", "source": src[:cut], "cmds": [[rng.choice(STYLES), True, False]]})
+                elif which == 3 and r % 8 == 3:   # (e) whitespace / character mutations of well-formed docstrings
+                    text, spec, style = wellformed_docstring(rng, rich=True)
+                    for _ in range(6):
+                        t = mutate(rng, text)
+                        st["probes"]["mutated_inputs"] = st["probes"].get("mutated_inputs", 0) + 1
+                        for op in itertools.islice(text_ops(t), 6):
+                            handle(op)
+                else:               # (d) histories on the simulated disk
+                    mod = _draw_module(rng)
+                    cmds = [[rng.choice(STYLES), rng.choice((True, False)), rng.choice((True, False))]
+                            for _ in range(rng.randint(1, 3))]
+                    handle({"kind": "doctrans_history", "source": mod, "cmds": cmds})
+                    if len(samples) < 4:
+                        samples.append({"doctrans_history": cmds, "source": mod[:600]})
+    except _Enough:
+        # every non-terminating operation burns its whole budget; a few are enough to report
+        st["stopped_after_hangs"] = 1
     if POSONLY[0]:
         st["probes"]["posonly_signature"] = POSONLY[0]
         POSONLY[0] = 0
